@@ -458,7 +458,8 @@ class C05(Base):
                    "segments_per_merge": rng.choice([2, 2, 3]), "wal": {"flush_each_write": True, "buffered": False}}
             h = H(seed, "C05", cfg, uid_salt=f"C05-{seed}-{i}")
             h.life(end="shutdown")
-            ntypes = rng.choice([1, 2, 3])
+            together = i % 3 == 0      # every third history: all types in every segment, so merge batches hold several types
+            ntypes = rng.choice([2, 3]) if together else rng.choice([1, 2, 3])
             types = [f"t{j}" for j in range(ntypes)]
             for t in types:
                 h.define(t, {"k": "int", "s": "string"})
@@ -466,8 +467,12 @@ class C05(Base):
             nseg = rng.randrange(3, 9)
             for s_ in range(nseg):
                 # each segment gets a random subset of types so that batches drain inputs only partially
-                present = [t for t in types if rng.random() < 0.7] or [rng.choice(types)]
-                for _ in range(rng.randrange(1, 4)):
+                present = list(types) if together else ([t for t in types if rng.random() < 0.7] or [rng.choice(types)])
+                if together:
+                    for t in types:
+                        k = h.new_k()
+                        h.store(t, rng.choice(ctxs), {"k": k, "s": rng.choice(["x", "y"])}, k=k)
+                for _ in range(rng.randrange(0 if together else 1, 4)):
                     t = rng.choice(present)
                     k = h.new_k()
                     h.store(t, rng.choice(ctxs), {"k": k, "s": rng.choice(["x", "y"])}, k=k)
@@ -541,6 +546,21 @@ class C05(Base):
             p["lifetimes"][li]["fault_after_io"] = info.get("startup_io", 0)
             p["opts"] = {"faulty": True}
             yield p
+        # unreadable input: the n-th read-only open of one kind of segment file fails while the merge reads its inputs
+        # (the rule is switched off at compact.output_written, so later queries are not hit): the run fails, the previous
+        # answers must hold
+        ro_globs = ["cols/*/*/*.zones", "cols/*/*/*_k.col", "cols/*/*/*_s.col", "cols/*/*/*_timestamp.col",
+                    "cols/*/*/*_context_id.zfc", "cols/*/*/*_event_type.col"]
+        combos = [("cols/*/*/*.zones", 1), ("cols/*/*/*_k.col", 1)] + \
+                 [(rng.choice(ro_globs), rng.choice([1, 2, 3, 5])) for _ in range(2 if tier == "quick" else 24)]
+        for glob, nth in combos:
+            p = copy.deepcopy(plan)
+            p.pop("id", None)
+            p["lifetimes"][li]["io_faults"] = [{"id": "ro-input", "op": "open_ro", "path": glob,
+                                                 "nth": nth, "errno": rng.choice(["EIO", "EACCES", "EMFILE"]),
+                                                 "until_gate": "compact.output_written"}]
+            p["opts"] = {"faulty": True}
+            yield p
 
 
 # ====================================================================== C12
@@ -557,7 +577,7 @@ class C12(Base):
                   "ids of one context must be constant across all lifetimes; FOR <ctx> must return exactly that context's events; an "
                   "unscoped query must return the union over all shards (also when some shards hold only passive or no data).")
     clauses = {"shard-moved", "lost", "duplicate-row", "foreign-row", "query-missing", "query-extra", "wrong-value", "frames",
-               "read-error", "panic", "wal-shard"}
+               "read-error", "panic", "wal-shard", "order-slice", "order-extra"}
     budgets = {"quick": {"histories": 100}, "thorough": {"histories": 4000}}
 
     @staticmethod
@@ -581,6 +601,26 @@ class C12(Base):
                 for c in ctxs:
                     if rng.random() < 0.6:
                         h.query({"type": "t0", "ctx": c}, tag=tag)
+            if i % 5 == 0 and cfg["shard_count"] >= 2:
+                # one shard holds many flushed zones, another shard holds its matching events only in memory: a read that
+                # pre-selects on-disk zones (ORDER BY + LIMIT) must still ask the shard that has nothing on disk
+                from .model import shard_of
+                ca = ctxs[0]
+                others = [c for c in HOSTILE_CTX if shard_of(c, cfg["shard_count"]) != shard_of(ca, cfg["shard_count"])]
+                cb = rng.choice(others)
+                for _ in range(12 * cfg["event_per_zone"]):
+                    k = h.new_k()
+                    h.store("t0", ca, {"k": k, "s": "disk"}, k=k)
+                h.flush()
+                cap = cfg["fill_factor"] * cfg["event_per_zone"]
+                for _ in range(max(1, cap - 1)):
+                    k = h.new_k()
+                    h.store("t0", cb, {"k": k, "s": "mem"}, k=k)
+                h.step({"op": "barrier", "meta": {"kind": "checkpoint", "tag": "disk-vs-memory-shard"}})
+                h.query({"type": "t0", "order": "k", "desc": True, "limit": 1}, kind="ordered", tag="disk-vs-memory-shard", feat="ord:mem-shard")
+                h.query({"type": "t0", "ctx": cb, "order": "k", "desc": False, "limit": 1}, kind="ordered", tag="disk-vs-memory-shard", feat="ord:mem-shard")
+                h.query({"type": "t0", "ctx": cb}, tag="disk-vs-memory-shard")
+                h.select("t0", tag="disk-vs-memory-shard")
             layout_script(h, rng, st, rng.randrange(5, 18), cp, compaction=rng.random() < 0.3)
             yield h.done()
 
@@ -888,7 +928,8 @@ class C02(Base):
 # ====================================================================== C07
 
 V_SCHEMA = {"k": "int", "i": "int", "u": "u64", "f": "float", "s": "string", "b": "bool", "e": ["red", "green", "Blue"],
-            "dt": "datetime", "d": "date", "os": "string | null", "oi": "int | null"}
+            "dt": "datetime", "d": "date", "os": "string | null", "oi": "int | null",
+            "odt": "datetime | null", "od": "date | null", "of": "float | null", "ob": "bool | null"}
 
 V_POOLS = {
     "i": [("i:small", 0), ("i:small", -1), ("i:small", 42), ("i:max", 9223372036854775807), ("i:min", -9223372036854775808),
@@ -904,9 +945,15 @@ V_POOLS = {
     "d": [("d:iso", "2025-01-02"), ("d:epoch_s", 1735776000)],
     "os": [("os:null", None), ("os:plain", "v"), ("os:empty", ""), ("os:absent", "__ABSENT__")],
     "oi": [("oi:null", None), ("oi:value", 5), ("oi:zero", 0), ("oi:absent", "__ABSENT__")],
+    # nullable typed fields: the physical column type must be the one of the non-nullable spelling
+    "odt": [("odt:null", None), ("odt:epoch_s", 1735689600), ("odt:iso", "2025-01-02T03:04:05Z"), ("odt:absent", "__ABSENT__")],
+    "od": [("od:null", None), ("od:iso", "2025-01-02"), ("od:epoch_s", 1735776000), ("od:absent", "__ABSENT__")],
+    "of": [("of:null", None), ("of:frac", 2.5), ("of:integral", 4.0), ("of:absent", "__ABSENT__")],
+    "ob": [("ob:null", None), ("ob:true", True), ("ob:false", False), ("ob:absent", "__ABSENT__")],
 }
-V_NORMAL = {"dt:iso": 1735787045, "dt:epoch_ms": 1735787045, "d:iso": 1735776000}
-V_PLAIN = {"i": 1, "u": 1, "f": 0.5, "s": "p", "b": True, "e": "red", "dt": 1735787045, "d": 1735776000, "os": "p", "oi": 1}
+V_NORMAL = {"dt:iso": 1735787045, "dt:epoch_ms": 1735787045, "d:iso": 1735776000, "odt:iso": 1735787045, "od:iso": 1735776000}
+V_PLAIN = {"i": 1, "u": 1, "f": 0.5, "s": "p", "b": True, "e": "red", "dt": 1735787045, "d": 1735776000, "os": "p", "oi": 1,
+           "odt": 1735787045, "od": 1735776000, "of": 0.5, "ob": True}
 
 
 class C07(Base):
@@ -1591,6 +1638,23 @@ class C19(Base):
             else:
                 f["short"] = short
             p["lifetimes"][li]["io_faults"] = list(p["lifetimes"][li].get("io_faults", [])) + [f]
+            p["opts"] = {"faulty": True}
+            yield p
+        # two faults: the first makes a whole clean-up pass fail (its logs stay), so that the next pass has several
+        # eligible logs; the second hits the archive of a later log of that pass - "if archiving ANY eligible file fails,
+        # no log file is deleted" is about exactly this pass
+        # (a rule that does not fire does not count the event another rule faulted: occurrence 2 of the second rule is the
+        # archive of the second log of the pass that follows the failed one)
+        fixed = [(op2, 2) for op2 in ("open", "write", "fsync") if op2 in kinds]
+        combos = [(op2, nth2) for op2 in kinds if op2 in ("open", "write", "fsync") for nth2 in range(3, 7)]
+        rng.shuffle(combos)
+        for op2, nth2 in fixed + combos[: (2 if tier == "quick" else 12)]:
+            p = copy.deepcopy(plan)
+            p.pop("id", None)
+            first = {"id": "arch-pass1", "op": "open", "path": "wal/archived*", "nth": 1, "errno": rng.choice(["EACCES", "ENOSPC"])}
+            second = {"id": f"arch-pass2-{op2}-{nth2}", "op": op2, "path": "wal/archived*", "nth": nth2,
+                      "errno": rng.choice(["EIO", "ENOSPC"]) if op2 != "open" else "EACCES"}
+            p["lifetimes"][li]["io_faults"] = list(p["lifetimes"][li].get("io_faults", [])) + [first, second]
             p["opts"] = {"faulty": True}
             yield p
 
